@@ -47,9 +47,14 @@ end
 def leafOK (sz : Nat) (kind : SKind) (e : Expr) : Bool :=
   !e.isStruct && (e.label.isNone || (sz == 8 && (kind == .int || kind == .ptr)))
 
-/-- a bit-field may be initialised by this expression: an integer constant expression -/
-def bfOK (kind : SKind) (e : Expr) : Bool :=
-  !e.isStruct && e.label.isNone && (kind == .int || kind == .bool)
+/-- `mask` of the bit-field arms: `(1L << bit_width) - 1` -/
+def bfMask (bw : Nat) : Nat := (2 ^ bw - 1) % 18446744073709551616
+
+/-- a bit-field may be initialised by this expression: an integer constant expression; for a `_Bool` bit-field the masked
+    unconverted value must equal the masked converted one (write_gvar_data masks the unconverted value) -/
+def bfOK (kind : SKind) (bw : Nat) (e : Expr) : Bool :=
+  !e.isStruct && e.label.isNone &&
+    (kind == .int || (kind == .bool && decide (u64 e.ival &&& bfMask bw = (if e.nz then 1 else 0) &&& bfMask bw)))
 
 mutual
   /-- the tree has the shape of the (resolved) type and every expression is admissible for its leaf -/
@@ -69,9 +74,9 @@ mutual
     | [], [] => true
     | c :: cs, (mi, t) :: ms =>
       (match mi.bf with
-       | some _ => (match c, t with
+       | some (_, bw) => (match c, t with
          | .leaf none, .scalar _ _ => true
-         | .leaf (some e), .scalar _ kind => bfOK kind e
+         | .leaf (some e), .scalar _ kind => bfOK kind bw e
          | _, _ => false)
        | none => fits c t) && fitsMs cs ms
     | _, _ => false
